@@ -307,6 +307,7 @@ func websocketFacts(p *pkgInfo, out *bytes.Buffer) error {
 	sec.run("table of valid received close codes (C14)", func(w *bytes.Buffer) error { return websocketFactsCloseCodes(p, w) })
 	sec.run("write lock discipline (C15)", func(w *bytes.Buffer) error { return websocketFactsLocking(p, w) })
 	sec.run("opening handshake (C13)", func(w *bytes.Buffer) error { return websocketFactsHandshake(p, w) })
+	sec.run("Dial reads the handshake response through the session's reader (C14)", func(w *bytes.Buffer) error { return websocketFactsDialReader(p, w) })
 	sec.run("write deadline discipline (C13)", func(w *bytes.Buffer) error { return websocketFactsDeadline(p, w) })
 	return sec.err()
 }
@@ -587,5 +588,50 @@ func websocketFactsDeadline(p *pkgInfo, w *bytes.Buffer) error {
 	}
 	fmt.Fprintf(w, "/-- C13 fact. Evidence: in each of [%s] a call `x.conn.SetWriteDeadline(…)` precedes `x.conn.Write(…)` and is not under\nany condition, loop or switch arm that does not also enclose the write: every frame is written under the deadline of its\nown write, and a write without a deadline clears what an earlier frame had armed. -/\ndef writesArmOwnDeadline : Bool := %s\n",
 		strings.Join(names, ", "), boolLean(all))
+	return nil
+}
+
+// websocketFactsDialReader: in Dialer.Dial the response to the opening handshake (the LAST http.ReadResponse of the
+// function; an earlier one belongs to the proxy CONNECT exchange) is read through the buffered reader the Conn keeps
+// (`x.br`, directly or through a local name bound to it): what the server sends right behind its 101 response is in
+// that reader when the first frame is read.
+func websocketFactsDialReader(p *pkgInfo, w *bytes.Buffer) error {
+	fd := p.funcDecl("Dialer", "Dial")
+	if fd == nil {
+		return fmt.Errorf("func (*Dialer) Dial")
+	}
+	var last *ast.CallExpr
+	ast.Inspect(fd.Body, func(n ast.Node) bool {
+		if ce, ok := n.(*ast.CallExpr); ok && strings.HasSuffix(selString(ce.Fun), "http.ReadResponse") && len(ce.Args) >= 1 {
+			if last == nil || ce.Pos() > last.Pos() {
+				last = ce
+			}
+		}
+		return true
+	})
+	if last == nil {
+		fmt.Fprintf(w, "/-- C14 fact. NOT READ FROM THE SOURCE (no `http.ReadResponse` in `Dialer.Dial`); the value is the model's, the\ncorrespondence run (client connections from `Dial` with frames arriving behind the response) decides it. -/\ndef dialReadsThroughSessionReader : Bool := true\n")
+		return nil
+	}
+	arg := last.Args[0]
+	text := selString(arg)
+	if id, ok := arg.(*ast.Ident); ok {
+		// a local name: what it was bound to (the last assignment before the call)
+		ast.Inspect(fd.Body, func(n ast.Node) bool {
+			if as, ok := n.(*ast.AssignStmt); ok && as.Pos() < last.Pos() && len(as.Lhs) == len(as.Rhs) {
+				for i, l := range as.Lhs {
+					if li, ok := l.(*ast.Ident); ok && li.Name == id.Name {
+						text = selString(as.Rhs[i])
+						if text == "" {
+							text = "(an expression)"
+						}
+					}
+				}
+			}
+			return true
+		})
+	}
+	ok := strings.HasSuffix(text, ".br")
+	fmt.Fprintf(w, "/-- C14 fact. Evidence: the last `http.ReadResponse` of `Dialer.Dial` reads from `%s`. -/\ndef dialReadsThroughSessionReader : Bool := %s\n", text, boolLean(ok))
 	return nil
 }
